@@ -36,9 +36,10 @@ XFS = [{"id": 0, "custom": False, "code": ""}, {"id": 14, "custom": False, "code
 F0 = {"k": "none", "si": -1, "ht": False, "text": "", "toks": [], "ref": ""}
 
 
-def cell(r, c, t="", v=None, vb="", vi=-1, isr=None, s=-1, f=None):
+def cell(r, c, t="", v=None, vb="", vi=-1, isr=None, s=-1, f=None, nr=False):
+    """nr: written without r= (only where document order implies the position)"""
     return {"r": r, "c": c, "t": t, "hv": v is not None, "v": v or "", "vb": vb, "vi": vi, "his": isr is not None,
-            "isr": isr or {"rich": False, "runs": []}, "s": s, "f": dict(f or F0)}
+            "isr": isr or {"rich": False, "runs": []}, "s": s, "f": dict(f or F0), "nr": nr}
 
 
 def plain(x):
@@ -49,8 +50,10 @@ def rich(*xs):
     return {"rich": True, "runs": list(xs)}
 
 
-def model(cells, sst=(), links=(), tcols=(), names=(), sheet="Sheet1", opts=None, xfs=None, extra_sheets=()):
-    sheets = [{"name": sheet, "cells": list(cells), "links": list(links), "tcols": list(tcols)}] + list(extra_sheets)
+def model(cells, sst=(), links=(), tcols=(), names=(), sheet="Sheet1", opts=None, xfs=None, extra_sheets=(), rownr=(), erows=()):
+    """rownr: rows whose <row> has no r=; erows: rows written as cell-less <row/> elements"""
+    sheets = [{"name": sheet, "cells": list(cells), "links": list(links), "tcols": list(tcols), "rownr": list(rownr),
+               "erows": list(erows)}] + list(extra_sheets)
     return {"sheets": sheets, "sst": list(sst), "xfs": list(xfs or XFS), "names": list(names),
             "opts": dict(OPT_DEFAULT, **(opts or {}))}
 
@@ -132,6 +135,72 @@ def kf_models():
     return out
 
 
+def pos_models():
+    """optional position attributes: cells with and without r= in one row, value cells and self-closing (blank, styled or
+    not) cells in every adjacency, rows without r= after rows with r= and after gaps, cell-less rows with and without r="""
+    one = fbits("1")
+
+    def val(r, c, nr=False):
+        return cell(r, c, "n", "1", one, nr=nr)
+
+    def sty(r, c, nr=False):
+        return cell(r, c, "", None, s=1, nr=nr)              # <c r=".." s="1"/>
+
+    def emp(r, c, nr=False):
+        return cell(r, c, "", None, nr=nr)                   # <c r=".."/> or <c/>
+    out = []
+    kinds = [val, sty, emp]
+    # every pair and triple of kinds in one row: (with r, without r), (without r, without r), (with r at a gap, without r)
+    for a in kinds:
+        for b in kinds:
+            out.append(model([a(1, 1), b(1, 2, True)]))
+            out.append(model([a(1, 1, True), b(1, 2, True)], rownr=[1]))
+            out.append(model([a(1, 3), b(1, 4, True), val(1, 5, True)]))
+            for c3 in kinds:
+                out.append(model([a(2, 2), b(2, 3, True), c3(2, 4, True), val(2, 6), val(2, 7, True)]))
+    # r after r-less, r-less after r at a lower column is not allowed; rows: with r, then without, gaps, cell-less rows
+    out.append(model([val(1, 1, True), val(1, 2), val(1, 3, True), sty(2, 1, True), val(2, 2, True), val(5, 2), val(6, 1, True),
+                      sty(6, 2, True), val(7, 1, True)], rownr=[1, 2, 6, 7]))
+    out.append(model([val(3, 1), val(4, 1, True), val(6, 1, True), val(7, 2), val(9, 1, True)], rownr=[4, 6, 9], erows=[5, 8]))
+    out.append(model([val(2, 1), val(5, 1, True), val(8, 3)], rownr=[3, 4, 5], erows=[3, 4, 6]))
+    out.append(model([val(1, 1, True), sty(1, 2, True), sty(1, 3, True), val(1, 4, True), emp(2, 1, True), emp(2, 2, True),
+                      val(2, 3, True)], rownr=[1, 2], opts={"indent": True, "spans": True}))
+    out.append(model([cell(1, 1, "inlineStr", isr=plain("a"), nr=True), sty(1, 2, True), cell(1, 3, "s", "0", vi=0, nr=True),
+                      emp(1, 4), cell(1, 5, "str", "x", nr=True, f=dict(F0, k="normal", ht=True, text="1+1"))], sst=[plain("p")]))
+    return out
+
+
+def xstring_models():
+    """ST_Xstring escapes in shared strings, rich runs, inline strings and <v> of t="str": surrogate pairs as two
+    escapes, lone surrogates, hexadecimal digits of either case, _x005F_ protecting an escape, escapes next to each other
+    and next to an underscore, incomplete escapes"""
+    texts = ["_xD83D__xDE00_", "a_xd83d__xde00_b", "_xD83D_", "x_xDE00_", "_xDE00__xD83D_", "_x000a_", "_x000A__x000d_",
+             "_x005F_x0041_", "_x005f_x0041_", "_x0041__x0042_", "_x0041__", "__x0041_", "_x_x0041_", "_x004", "_x00G1_",
+             "_x0041", "_x005F__x005F_", "_x005F_xD83D__xDE00_", "\U0001F600_xD83D__xDE00_", "_xD83D_\U0001F600", "_x0000_", "_xFFFF_",
+             "_x0009__x0020_"]
+    cells, sst = [], []
+    for i, t in enumerate(texts):
+        sst.append(plain(t))
+        sst.append(rich("r" + t, t + "s"))
+        cells += [cell(i + 1, 1, "s", str(2 * i), vi=2 * i), cell(i + 1, 2, "s", str(2 * i + 1), vi=2 * i + 1),
+                  cell(i + 1, 3, "inlineStr", isr=plain(t)), cell(i + 1, 4, "inlineStr", isr=rich(t, "-", t)),
+                  cell(i + 1, 5, "str", t, f=dict(F0, k="normal", ht=True, text='"x"'))]
+    # a pair split over two runs stays two lone surrogates (each run is a text of its own)
+    sst.append(rich("_xD83D_", "_xDE00_"))
+    cells.append(cell(len(texts) + 1, 1, "s", str(len(sst) - 1), vi=len(sst) - 1))
+    return [model(cells, sst=sst), model(cells, sst=sst, opts={"indent": True, "ent": "numeric"})]
+
+
+def finding_models():
+    """the open findings C03-KF10 (<si/> not counted) and C03-KF11 (<rPh> of a plain inline string), deterministically"""
+    return [model([cell(1, 1, "s", "0", vi=0), cell(1, 2, "s", "1", vi=1), cell(1, 3, "s", "2", vi=2)],
+                  sst=[plain("a"), {"rich": False, "runs": []}, plain("c"), plain("d")]),
+            model([cell(1, 1, "s", "1", vi=1)], sst=[{"rich": False, "runs": []}, plain("beyond")]),     # the load panics
+            model([cell(1, 1, "inlineStr", isr=dict(plain("base"), ph="kana")),
+                   cell(1, 2, "inlineStr", isr=dict(rich("ba", "se"), ph="kana")), cell(1, 3, "s", "0", vi=0)],
+                  sst=[dict(plain("sbase"), ph="skana"), dict(rich("s", "b"), ph="skana")])]
+
+
 def inline_run_models():
     """runs of consecutive inline strings: the first <t> carries xml:space="preserve", the following ones do not (plain and
     rich, with and without unprotected outer blanks), in one row and across rows, in compact and in indented markup; then
@@ -163,6 +232,18 @@ def rtext(rng, n=None, pool=UNI, pad=False):
     return s or "x"
 
 
+XESC = ["_xD83D__xDE00_", "_x000A_", "_x005F_", "_x005f_x0041_", "_x0041_", "_x00e9__x", "_xD83D_", "_x004", "_", "_x", "_xd83c__xdf0d_"]
+
+
+def xesc(rng, text):
+    """now and then a text gets ST_Xstring escapes (and things that look like one) at a random place"""
+    if rng.random() < 0.15:
+        for _k in range(rng.randint(1, 3)):
+            i = rng.randint(0, len(text))
+            text = text[:i] + rng.choice(XESC) + text[i:]
+    return text
+
+
 def rnum(rng):
     u = rng.random()
     if u < 0.3:
@@ -187,7 +268,7 @@ def random_models(rng, count):
             if rng.random() < 0.25:
                 sst.append(rich(*[rtext(rng, pad=True) for _j in range(rng.randint(1, 4))]))
             else:
-                sst.append(plain(rtext(rng, pad=rng.random() < 0.3)))
+                sst.append(plain(xesc(rng, rtext(rng, pad=rng.random() < 0.3))))
         sheets = []
         for si in range(rng.choice([1, 1, 2, 3])):
             far = rng.random() < 0.3
@@ -212,7 +293,7 @@ def random_models(rng, count):
                         t = "s" + t
                     cells.append(cell(r, c, "inlineStr", isr=plain(t), s=s))
                 elif u < 0.7:
-                    cells.append(cell(r, c, "str", rtext(rng), s=s, f=dict(F0, k="normal", ht=True, text='"a"&"b"')))
+                    cells.append(cell(r, c, "str", xesc(rng, rtext(rng)), s=s, f=dict(F0, k="normal", ht=True, text='"a"&"b"')))
                 elif u < 0.78:
                     cells.append(cell(r, c, "b", rng.choice(["0", "1"]), s=s))
                 elif u < 0.86:
@@ -272,6 +353,17 @@ def random_models(rng, count):
                         cells.append(cell(ar + dr, ac + dc, "", v, fbits(v), f={"k": "shared", "si": sidx, "ht": False, "text": "",
                                                                                "toks": [], "ref": ""}))
             cells.sort(key=lambda x: (x["r"], x["c"]))
+            # optional position attributes: left out at random where document order implies the position
+            rownr, prow, pcol = [], 0, 0
+            if rng.random() < 0.5:
+                for x in cells:
+                    if x["r"] != prow:
+                        if x["r"] == prow + 1 and rng.random() < 0.4:
+                            rownr.append(x["r"])
+                        pcol = 0
+                    if x["c"] == pcol + 1 and rng.random() < 0.5:
+                        x["nr"] = True
+                    prow, pcol = x["r"], x["c"]
             name = rtext(rng, rng.randint(1, 20), SHEETCH).strip("' ") or "S"
             name = (name[:25] + str(si)).strip("'")
             links = []
@@ -286,7 +378,7 @@ def random_models(rng, count):
             tcols = []
             if rng.random() < 0.3:
                 tcols = list(dict.fromkeys(rtext(rng, rng.randint(1, 8)) for _k in range(rng.randint(1, 4))))
-            sheets.append({"name": name, "cells": cells, "links": links, "tcols": tcols})
+            sheets.append({"name": name, "cells": cells, "links": links, "tcols": tcols, "rownr": rownr})
         if len({s["name"].lower() for s in sheets}) != len(sheets):
             continue
         names = []
@@ -303,7 +395,7 @@ def random_models(rng, count):
 # ---------------------------------------------------------------------------------------------
 # pairing the extraction with the library's dump (no judgement here)
 # ---------------------------------------------------------------------------------------------
-RAW_ABSENT = {"r": 0, "c": 0, "nr": False, "t": "", "s": -1, "hv": False, "vx": "", "v": "", "vt": "", "vb": "", "vi": -1,
+RAW_ABSENT = {"r": 0, "c": 0, "nr": False, "rf": False, "rra": 0, "rpre": [], "hx": False, "t": "", "s": -1, "hv": False, "vx": "", "v": "", "vt": "", "vb": "", "vi": -1,
               "his": False, "cr": False, "f": {"k": "none", "si": -1, "ht": False, "text": "", "toks": []}}
 OBS_ABSENT = {"k": "blank", "runs": [], "runsn": [], "runst": [], "runstn": [], "b": "", "f": "", "hf": False, "fid": 0,
               "fmt": "General"}
@@ -330,7 +422,9 @@ def obs_of(c):
 
 
 def raw_of(c):
-    raw = {k: c[k] for k in ("r", "c", "nr", "t", "s", "hv", "vx", "v", "vt", "vb", "vi", "his", "cr", "f")}
+    raw = {k: c[k] for k in ("r", "c", "nr", "rf", "rra", "rpre", "t", "s", "hv", "vx", "v", "vt", "vb", "vi", "his", "cr", "f", "hx")}
+    if c["hx"]:
+        raw["xu"], raw["du"] = c["xu"], c["du"]
     if c["his"]:
         raw["isr"] = c["isr"]
     return raw
@@ -341,7 +435,8 @@ def pair(case_id, label, ext, ev):
     fe = {"a": "File", "case": case_id, "file": label, "outcome": ev["outcome"], "msg": ev.get("msg", "")[:300],
           "sst": ext["sst"], "xfs": ext["xfs"],
           "sheets": [s["name"] for s in ext["sheets"]], "osheets": [s["name"] for s in ev.get("sheets", [])],
-          "names": ext["names"]}
+          "names": ext["names"],
+          "maxsi": max([c["vi"] for s in ext["sheets"] for c in s["cells"] if c["t"] == "s" and c["hv"]] + [-1])}
     onames = [{"name": x["name"], "local": x["local"]} for x in ev.get("names", [])]
     for s in ev.get("sheets", []):
         onames += [{"name": x["name"], "local": x["local"]} for x in s["names"]]
@@ -379,17 +474,27 @@ def pair(case_id, label, ext, ev):
         cur = subcases[-1]
         cur.append(se)
         masters = []
+        nopos = {"set": False, "row": 0, "col": 0}
+        rown = {(c["r"], c["c"]): c["rown"] for c in xs["cells"]}
+        lastrp = None
         for bi, b in enumerate(batches):
+            pos0 = nopos
             if bi > 0 and bi % per_case == 0:
                 # a new sub-case: the file event again, the sheet event again and the masters met so far
                 cur = [fe, dict(se, links=[], tcols=[], otcols=[])]
                 subcases.append(cur)
-                if masters:
+                if masters:       # (re-read only for the shared-formula table: positions as given)
                     cur.append({"a": "Cells", "case": case_id, "sheet": si, "first": False, "last": False, "noref": False,
-                                "items": list(masters)})
+                                "pos0": nopos, "items": [dict(it, raw=dict(it["raw"], nr=False)) for it in masters]})
+                # the position state the sheet has reached: row element and column of the last cell of the file so far
+                if lastrp is not None:
+                    pos0 = {"set": True, "row": rown[(lastrp["r"], lastrp["c"])], "col": lastrp["c"]}
             cur.append({"a": "Cells", "case": case_id, "sheet": si, "first": bi == 0, "last": bi == len(batches) - 1,
-                        "noref": xs["noref"], "items": b})
+                        "noref": xs["noref"], "pos0": pos0, "items": b})
             masters += [it for it in b if it["rp"] and it["raw"]["f"]["k"] == "shared" and it["raw"]["f"]["ht"]]
+            for it in b:
+                if it["rp"]:
+                    lastrp = it
     return subcases
 
 
@@ -403,7 +508,10 @@ def self_check(m, ext):
     mv = mt                                                         # (<v> text is never trimmed for t="str")
     if m["opts"].get("nosp"):                                       # unprotected outer white space of a <t> is delivered trimmed
         mt = lambda x: mv(x).strip(XMLWS)
-    if [x["runsx"] for x in ext["sst"]] != [[mt(r) for r in x["runs"]] for x in m["sst"]] or [x["rich"] for x in ext["sst"]] != [x["rich"] for x in m["sst"]]:
+    if [x["runsx"] for x in ext["sst"]] != [[mt(r) for r in x["runs"]] or [""] for x in m["sst"]] or \
+            [x["rich"] for x in ext["sst"]] != [x["rich"] for x in m["sst"]] or \
+            [x["se"] for x in ext["sst"]] != [not x["rich"] and not x["runs"] for x in m["sst"]] or \
+            [x["pht"] if x["ph"] else None for x in ext["sst"]] != [x.get("ph") for x in m["sst"]]:
         bad("shared strings")
     if [(x["id"], x["custom"], x["code"]) for x in ext["xfs"]] != [(x["id"], x["custom"], x["code"]) for x in m["xfs"]]:
         bad("cellXfs")
@@ -414,6 +522,8 @@ def self_check(m, ext):
             bad("cell count")
         for a, b in zip(ms["cells"], xs["cells"]):
             same = (a["r"], a["c"], a["hv"], mv(a["v"]), a["his"], a["s"]) == (b["r"], b["c"], b["hv"], b["vx"], b["his"], b["s"]) \
+                and (bool(a.get("nr")) or not m["opts"]["rowr"]) == b["nr"] \
+                and (not a["his"] or a["isr"].get("ph") == (b["isr"]["pht"] if b["isr"]["ph"] else None)) \
                 and a["t"] in (b["t"], "n" if b["t"] == "" else b["t"]) \
                 and (a["f"]["k"], a["f"]["si"] if a["f"]["k"] == "shared" else -1, a["f"]["ht"], a["f"]["text"]) == \
                     (b["f"]["k"], b["f"]["si"] if b["f"]["k"] == "shared" else -1, b["f"]["ht"], b["f"]["text"]) \
@@ -439,7 +549,8 @@ def tlc_models(chk):
     quick = chk.tier == "quick"
     models = []
     t0 = time.time()
-    cfgs = ["MC_Decode_replay.cfg", "MC_Decode_replay_shared.cfg", "MC_Decode_replay_attrs.cfg", "MC_Decode_replay_inl.cfg"]
+    cfgs = ["MC_Decode_replay.cfg", "MC_Decode_replay_sst.cfg", "MC_Decode_replay_shared.cfg", "MC_Decode_replay_attrs.cfg",
+            "MC_Decode_replay_inl.cfg", "MC_Decode_replay_pos.cfg" if quick else "MC_Decode_replay_pos3.cfg"]
     if not quick:
         cfgs.append("MC_Decode_replay_d2.cfg")
     for cfg in cfgs:
@@ -527,6 +638,10 @@ def judge(chk, scripts):
         out = vlib.validate("Trace_Decode", "Trace_Decode.cfg", event_lists, chk.open_ids, "c03", chunk_events=600,
                             timeout=7200)
         vlib.log(f"[c03] validated by TLC ({time.time()-t0:.1f}s)")
+        for ci, off, detail in out["mismatch"]:
+            if detail.startswith('<<"gen"') or detail.startswith('<< "gen"'):
+                # the extraction and the specification disagree on a position or on an ST_Xstring decoding: the tool is wrong
+                raise vlib.ToolError(f"extraction and specification disagree ({describe(scripts[owner[ci]], None, detail)[:600]})")
         sub_scripts = [scripts[o] for o in owner]
         chk.process_validation(out, sub_scripts, event_lists, "decode", describe)
         return {"cells": ncells, "shared_children": nshared, "masters_not_tokenised": skipped, "subcases": len(event_lists)}
@@ -539,12 +654,13 @@ def run(chk):
     vlib.tlc_mc("MC_Decode", "MC_Decode_shared.cfg", workers=4, must_take=MUST_TAKE + ["AddSharedBlock"], check=chk)
     vlib.tlc_mc("MC_Decode", "MC_Decode_opts.cfg", workers=4, must_take=MUST_TAKE + ["SetOpt", "SetXmlSpace", "AddEntityAttr"],
                 check=chk)
+    vlib.tlc_mc("MC_Decode", "MC_Decode_pos.cfg", workers=4, must_take=["AddCellFree", "Finish"], check=chk)
     quick = chk.tier == "quick"
     if not quick:
         vlib.tlc_mc("MC_Decode", "MC_Decode_thorough.cfg", workers=4, must_take=MUST_TAKE + ["AddSstItem"], timeout=3600, check=chk)
         vlib.tlc_mc("MC_Decode", "MC_Decode_shared_thorough.cfg", workers=4, must_take=MUST_TAKE + ["AddSharedBlock", "SetOpt"],
                     timeout=3600, check=chk)
-    models = kf_models() + inline_run_models() + link_models() + tlc_models(chk) + random_models(chk.rng, 300 if quick else 6000)
+    models = kf_models() + finding_models() + pos_models() + xstring_models() + inline_run_models() + link_models() + tlc_models(chk) + random_models(chk.rng, 300 if quick else 6000)
     scripts = [{"kind": "gen", "model": m} for m in models] + [{"kind": "corpus", "path": p} for p in corpus_paths(chk)]
     stats = judge(chk, scripts)
     chk.extra["cells_judged"] = stats
